@@ -73,6 +73,8 @@ func Apply(op string, c *grammar.CFG) (out *grammar.CFG, kind, msg string) {
 		out = grammar.VerifEliminateNonSolitaryTerminals(c)
 	case "cnfbin":
 		out = grammar.VerifEliminateNonBinaryProductions(c)
+	case "clone": // only the history component (history.go) uses it
+		out = c.Clone()
 	default:
 		panic("unknown op " + op)
 	}
